@@ -10,7 +10,7 @@ suffix = sys.argv[2] if len(sys.argv) > 2 and not sys.argv[2].startswith("--") e
 checks = [prop]
 if "--checks" in sys.argv:
     checks = sys.argv[sys.argv.index("--checks") + 1].split(",")
-src = f"/tmp/seed-{prop}"
+src = f"/root/verif_scratch/seeds/{prop}" if os.path.isdir(f"/root/verif_scratch/seeds/{prop}") else f"/tmp/seed-{prop}"
 sid = f"{prop}-{suffix}"
 patch = open(os.path.join(src, "seed_patch.diff")).read()
 # keep only hunks touching fortls/
@@ -32,8 +32,10 @@ try:
     r1 = subprocess.run(["/venv/bin/python", demo], cwd=wt, env=env, capture_output=True, text=True, timeout=600)
     out["demo_with_change_rc"] = r1.returncode
     out["demo_with_change_output"] = (r1.stdout + r1.stderr)[-600:]
+    ptmp = tempfile.mkdtemp(prefix="vf-seed-tmp-", dir="/root/verif_scratch")  # test_recursion_error_handling indexes $TMPDIR
     t = subprocess.run(["/venv/bin/python", "-m", "pytest", "-q", "-p", "no:cacheprovider", "-n", "8", "--deselect", "test/test_interface.py::test_version_update_pypi"],
-                       cwd=wt, env=env, capture_output=True, text=True, timeout=1800)
+                       cwd=wt, env=dict(env, TMPDIR=ptmp), capture_output=True, text=True, timeout=1800)
+    shutil.rmtree(ptmp, ignore_errors=True)
     m = re.search(r"(\d+) passed", t.stdout); f = re.search(r"(\d+) failed", t.stdout)
     out["suite_with_change"] = {"passed": int(m.group(1)) if m else 0, "failed": int(f.group(1)) if f else 0}
     os.remove(pf); os.remove(demo)
